@@ -68,7 +68,7 @@ theorem evalHashStmts_arm {V W : Type} (ops : HashOps V W) (E : Env V) (k : Nat)
         cases hm : c.method <;>
           simp [Sem.evalHashStmts, evalRef, ls, Spec.feedFields, Spec.feedAt, hm, ih', hig']
 
-theorem arm_block_correct {V W : Type} (ops : HashOps V W) (k idx : Nat) (v : HashVariant) (hv : v.WF)
+theorem hash_arm_block_correct {V W : Type} (ops : HashOps V W) (k idx : Nat) (v : HashVariant) (hv : v.WF)
     (xs : List V) (hx : xs.length = v.fields.length) :
     Sem.evalHashStmts ops (matchArm k (Sem.hashNames v) xs (arm idx v).pat) [] (arm idx v).block
       = some (Spec.feedFields ops k 0 v.fields xs) := by
@@ -99,7 +99,7 @@ theorem arm_block_correct {V W : Type} (ops : HashOps V W) (k idx : Nat) (v : Ha
       exact nodup_map_index HashField.name v.fields j₁ j₂ c₁ c₂ hnd g1 g2 (namedV_inj (h1.trans h2.symm))
     · intro j c h; simp [bindNamed, h]
 
-theorem arms_get : ∀ (vs : List HashVariant) (i k : Nat) (v : HashVariant), vs[k]? = some v →
+theorem hash_arms_get : ∀ (vs : List HashVariant) (i k : Nat) (v : HashVariant), vs[k]? = some v →
     (arms i vs)[k]? = some (arm (i + k) v) := by
   intro vs
   induction vs with
@@ -113,7 +113,7 @@ theorem arms_get : ∀ (vs : List HashVariant) (i k : Nat) (v : HashVariant), vs
       simp only [arms, List.getElem?_cons_succ]
       rw [ih (i + 1) k v h]; congr 2; omega
 
-theorem arm_index (i : Nat) (v : HashVariant) : (arm i v).index = i := by
+theorem hash_arm_index (i : Nat) (v : HashVariant) : (arm i v).index = i := by
   unfold arm; cases v.shape <;> rfl
 
 /-- **C05, main theorem.** The generated `hash` evaluates (all binders resolve) and feeds exactly
@@ -133,14 +133,14 @@ theorem hash_correct {V W : Type} (ops : HashOps V W) (t : HashType) (ht : t.WF)
     simpa using this
   | enum vs =>
     simp only [HashType.variantOf] at hva
-    have harm := arms_get vs 0 a.variant va hva
+    have harm := hash_arms_get vs 0 a.variant va hva
     have hne : (arms 0 vs).isEmpty = false := by
       cases vs with
       | nil => simp at hva
       | cons _ _ => simp [arms]
     have hmem : va ∈ vs := List.mem_of_getElem? hva
     simp only [body, Sem.evalHash, hne, harm, hva, Spec.feed, Nat.zero_add]
-    rw [arm_block_correct ops a.variant a.variant va (ht va hmem) a.fields hla, arm_index]
+    rw [hash_arm_block_correct ops a.variant a.variant va (ht va hmem) a.fields hla, hash_arm_index]
     rfl
 
 /-- Two values that agree on the variant and on every non-ignored field feed identical data. -/
